@@ -161,6 +161,10 @@ Inductive item :=
 
 Inductive node :=
 | NDecl (x : ident) (t : ty)                    (* VarDecl, not global *)
+| NHoist (x : ident) (t : ty)                   (* VarDecl(hoisted=True), not global: the default-initialised declaration
+                                                   _make_promotion_decls puts in front of a nested construct; emitted like
+                                                   any declaration, but DROPPED by the enclosing construct's rewrite when it
+                                                   hoists the name further out *)
 | NAssign (x : ident)
 | NIf (brs : list (list node))
 | NWhile (body : list node)
@@ -172,6 +176,12 @@ Record pctx := mk_pctx { declared : list ident; types : list decl }.   (* var_de
 Record wres := mk_wres { w_nodes : list node; w_ctx : pctx; w_globals : list decl; w_ok : bool }.
 
 (* the private _rewrite of the if handler: descends into nested IfStatements only *)
+(* both rewriters drop the hoisted declarations of the promoted names; they only ever stand at the top level of the
+   list being rewritten (the construct they belong to has removed the ones further in) *)
+Definition is_hoist_of (ps : list ident) (n : node) : bool :=
+  match n with NHoist x _ => tmem x ps | _ => false end.
+Definition drop_h (ps : list ident) (l : list node) : list node := filter (fun n => negb (is_hoist_of ps n)) l.
+
 Fixpoint rw_if (ps : list ident) (n : node) : node :=
   match n with
   | NDecl x t => if tmem x ps then NAssign x else n
@@ -183,6 +193,7 @@ Fixpoint rw_if (ps : list ident) (n : node) : node :=
 Fixpoint rw_all (ps : list ident) (n : node) : node :=
   match n with
   | NDecl x t => if tmem x ps then NAssign x else n
+  | NHoist _ _ => n
   | NAssign _ => n
   | NIf brs => NIf (map (map (rw_all ps)) brs)
   | NWhile b => NWhile (map (rw_all ps) b)
@@ -194,6 +205,7 @@ Fixpoint rw_all (ps : list ident) (n : node) : node :=
 Fixpoint decl_names (n : node) : list ident :=
   match n with
   | NDecl x _ => [x]
+  | NHoist x _ => [x]
   | NAssign _ => []
   | NIf brs => flat_map (flat_map decl_names) brs
   | NWhile b => flat_map decl_names b
@@ -218,7 +230,7 @@ Section Walk.
              (mk : list ident -> node) : wres :=
     let ds := P o c in
     let ps := map fst ds in
-    mk_wres ((if glob then [] else map (fun d => NDecl (fst d) (snd d)) ds) ++ [mk ps])
+    mk_wres ((if glob then [] else map (fun d => NHoist (fst d) (snd d)) ds) ++ [mk ps])
             (mk_pctx (declared base ++ ps) (push_types ds (types base)))
             (if glob then ds else [])
             (inner_ok && guard c).
@@ -242,23 +254,23 @@ Section Walk.
         let rs := map (fun b => wb b c) brs in
         finish glob c o (CIf (declared c) (map (fun r => new_decls c (w_ctx r)) rs))
                (forallb w_ok rs)
-               (fun ps => NIf (map (fun r => map (rw_if ps) (w_nodes r)) rs))
+               (fun ps => NIf (map (fun r => map (rw_if ps) (drop_h ps (w_nodes r))) rs))
     | STry o brs =>
         let rs := map (fun b => wb b c) brs in
         finish glob c o (CIf (declared c) (map (fun r => new_decls c (w_ctx r)) rs))
                (forallb w_ok rs)
-               (fun ps => NTry (map (fun r => map (rw_all ps) (w_nodes r)) rs))
+               (fun ps => NTry (map (fun r => map (rw_all ps) (drop_h ps (w_nodes r))) rs))
     | SWhile o body =>
         let r := wb body c in
         finish glob c o (CLoop (flat_map decl_names (w_nodes r)) (new_decls c (w_ctx r)))
                (w_ok r)
-               (fun ps => NWhile (map (rw_all ps) (w_nodes r)))
+               (fun ps => NWhile (map (rw_all ps) (drop_h ps (w_nodes r))))
     | SFor o v body =>
         let cv := mk_pctx (declared c ++ [v]) ((v, 0) :: types c) in
         let r := wb body cv in
         finish glob c o (CLoop (flat_map decl_names (w_nodes r)) (new_decls cv (w_ctx r)))
                (w_ok r)
-               (fun ps => NFor v (map (rw_all ps) (w_nodes r)))
+               (fun ps => NFor v (map (rw_all ps) (drop_h ps (w_nodes r))))
     end.
 
   Fixpoint walk_block (l : list stmt) (c : pctx) : wres :=
@@ -268,6 +280,26 @@ Section Walk.
         let r1 := walk_stmt false s c in
         let r2 := walk_block r (w_ctx r1) in
         mk_wres (w_nodes r1 ++ w_nodes r2) (w_ctx r2) [] (w_ok r1 && w_ok r2)
+    end.
+
+  (* the body level of the main `while True:` loop (scope "loop", depth 1): a first assignment is a sketch global
+     with the default initialiser plus the assignment in place; the names a construct promotes to this level are
+     globals (no node), like at setup depth 0 *)
+  Definition walk_stmt_main (s : stmt) (c : pctx) : wres :=
+    match s with
+    | SAssign x t =>
+        if tmem x (declared c) then walk_stmt true s c
+        else mk_wres [NAssign x] (mk_pctx (declared c ++ [x]) ((x, t) :: types c)) [(x, t)] true
+    | _ => walk_stmt true s c
+    end.
+
+  Fixpoint walk_main (l : list stmt) (c : pctx) : wres :=
+    match l with
+    | [] => mk_wres [] c [] true
+    | s :: r =>
+        let r1 := walk_stmt_main s c in
+        let r2 := walk_main r (w_ctx r1) in
+        mk_wres (w_nodes r1 ++ w_nodes r2) (w_ctx r2) (w_globals r1 ++ w_globals r2) (w_ok r1 && w_ok r2)
     end.
 
   (* result of a whole program: globals, functions (definition order), setup body, loop body,
@@ -291,9 +323,9 @@ Section Walk.
         mk_ps c (mk_out (o_globals out) (o_funs out ++ [(f, w_nodes r)]) (o_setup out) (o_loop out)
                         (o_ok out && w_ok r))
     | IMain body =>
-        let r := walk_block body c in
+        let r := walk_main body c in
         mk_ps (w_ctx r)
-              (mk_out (o_globals out) (o_funs out) (o_setup out) (o_loop out ++ w_nodes r)
+              (mk_out (o_globals out ++ w_globals r) (o_funs out) (o_setup out) (o_loop out ++ w_nodes r)
                       (o_ok out && w_ok r))
     end.
 
